@@ -214,8 +214,9 @@ def oracleC10 (c : TCase) : Verdict :=
            | some m => (match rfcFraming (v.toNat! == 0) m st'.toNat! (framingOf wireFields) with | .ok .close => true | _ => false)
            | none => false
          { s1 with lastResp := some (st'.toNat!, v.toNat!, hdrs), hackFired := s.hackFired || hack, closeDelim := s.closeDelim || closeD,
-                   serverClose := s.serverClose || hdrs.any (fun h => h.name == "connection" && h.value == strB "close"),
-                   ambig := s.ambig || hdrs.any (fun h => h.name == "connection" && closeVariant h.value) }
+                   -- … and so is "the response carried Connection: close": any of its Connection fields, as sent
+                   serverClose := s.serverClose || wireFields.any (fun h => h.name == "connection" && h.value == strB "close"),
+                   ambig := s.ambig || wireFields.any (fun h => h.name == "connection" && closeVariant h.value) }
        | _ => s1)
     | "proceed" | "proceed!" =>
       (match t.res with
